@@ -16,8 +16,8 @@ import c12_gen as G
 
 META = {
     "category": "proof",
-    "text": "Coq theorems (Log/Props_C12.v, closed under the global context) over an executable model of sst/src/log.rs (WriteBatch, LogBuilder::_append/append_split/true_up, LogIterator::next/next_frame/next_header/true_up, the prototk header and entry codecs) for every block size > HEADER_MAX_SIZE, every batch size/count and an arbitrary crc function: reading a written log returns exactly the entries of the successfully appended batches in order and ends cleanly; reading ANY byte prefix of it returns exactly the batches wholly inside the prefix and then ends or errors; the writer never panics, lays frames out as whole | first+padding+second with padding <= HEADER_MAX_SIZE, fails only at the two size checks; the reader is total on arbitrary bytes; plus (labelled partial) a small-step model of ConcurrentLogBuilder over the interface of the two coalescing queues, for every schedule: the file is the sequential log of the merged batches (each request once, whole, in link order), a call returns Ok only after an fdatasync covering its bytes, and an acknowledged batch is read back from every cut at or after the durable mark. The model is tied to the code by differential runs on boundary-solved logs (0..25 bytes before the 1 MiB boundary), all truncations in windows around boundaries/frame ends, mutated and raw malformed files, multi-threaded appends (file decomposition + strace ordering of write/fdatasync/ack).",
-    "note": "Trusted: Coq kernel; tools/constants.py; ExtrOcamlBasic extraction + ocaml/log/mx_log.ml (incl. its crc32c); harness c12; strace. crc32c is an arbitrary function (no property used). I/O errors other than short reads, and the BufWriter/BufReader internals, are outside the model. The concurrent theorems are about the queue-interface model (sync42 internals are C18's), labelled partial.",
+    "text": "Coq theorems (Log/Props_C12.v, closed under the global context) over an executable model of sst/src/log.rs (WriteBatch, LogBuilder::_append/append_split/true_up, LogIterator::next/next_frame/next_header/true_up, the prototk header and entry codecs) for every block size > HEADER_MAX_SIZE, every batch size/count and an arbitrary crc function: reading a written log returns exactly the entries of the successfully appended batches in order and ends cleanly; reading ANY byte prefix of it returns exactly the batches wholly inside the prefix and then ends or errors; the writer never panics, lays frames out as whole | first+padding+second with padding <= HEADER_MAX_SIZE, fails only at the two size checks; the reader is total on arbitrary bytes; plus, for every schedule of ConcurrentLogBuilder::append over the wait-list-level model of sync42's WorkCoalescingQueue that area Sync42 proves correct (two copies of Sync42/ModelWcq.v instantiated with WriteCoalescingCore and FsyncCoalescingCore and glued as append glues them; threads as program counters, mutexes, condition variables with spurious wake-ups, rings smaller than the number of threads; no atomicity assumed): no panic, the file is the sequential log of the merged batches (each linked request at most once, whole, in link order), a call returns Ok only after an fdatasync covering its bytes completed, and an acknowledged batch is read back from every cut at or after the durable mark. The model is tied to the code by differential runs on boundary-solved logs (0..25 bytes before the 1 MiB boundary), all truncations in windows around boundaries/frame ends, mutated and raw malformed files, multi-threaded appends (file decomposition + strace ordering of write/fdatasync/ack).",
+    "note": "Trusted: Coq kernel; tools/constants.py; ExtrOcamlBasic extraction + ocaml/log/mx_log.ml (incl. its crc32c); harness c12; strace. crc32c is an arbitrary function (no property used). I/O errors other than short reads, and the BufWriter/BufReader internals, are outside the model. The concurrent theorems rest on Sync42's invariant of the queue machine (imported, not re-proved) and on: ModelWcq.v being the real queue (C18's correspondence), the four glue lines of append, and the meaning of fdatasync.",
 }
 
 PROPS = "theories/Log/Props_C12.v"
@@ -228,7 +228,7 @@ def run(chk):
     })
     chk.assumptions = ["crc32c is an arbitrary function (no detection property used or needed by C12)",
                        "write_all/flush/fdatasync do not fail (I/O errors are outside the model)",
-                       "the concurrent theorems are about a model of the coalescing-queue interface (do_work), not of sync42's wait list"]
+                       "the concurrent theorems are about Log/ModelConcWL.v (two Sync42/ModelWcq.v machines + the glue of append); that ModelWcq.v is the real queue is C18's correspondence; a successful fdatasync makes every byte flushed so far durable"]
 
     if prop_bad or conc_bad:
         b = (prop_bad + conc_bad)[0]
